@@ -62,7 +62,9 @@ func init() {
 //	base[idx] == ite(p == idx, v, old[idx])
 //
 // which is applied repeatedly; when all remaining cells are one and the same
-// term, that term is the value.  The result is equivalent to the plain
+// term, that term is the value; when they are all constants with at most 16
+// exceptions from the most frequent constant, the value is that constant
+// with one ite per exception.  The result is equivalent to the plain
 // ite-chain of symRead over all cells (the fallback whenever the shape does
 // not match), but has one ite per store instead of one per cell: the
 // 256-entry bad-character table of the Boyer-Moore finders costs seconds per
@@ -92,6 +94,15 @@ func (in *Interp) symReadPeel(base []Value, idx *Term) (*Term, bool) {
 		}
 		if same {
 			res := cells[0]
+			for i := len(layers) - 1; i >= 0; i-- {
+				res = in.tt.Ite(in.tt.Eq(layers[i].p, idx), layers[i].v, res)
+			}
+			return res, true
+		}
+		// all constants, few of them different from the most frequent one
+		// (a table filled with a default and then written at concrete
+		// indexes): default plus one ite per exception
+		if res, ok := in.symReadConstTable(cells, idx); ok {
 			for i := len(layers) - 1; i >= 0; i-- {
 				res = in.tt.Ite(in.tt.Eq(layers[i].p, idx), layers[i].v, res)
 			}
@@ -144,4 +155,37 @@ func peelCell(c *Term, j uint64) (p, v, old *Term, ok bool) {
 		return
 	}
 	return a, c.args[1], c.args[2], true
+}
+
+func (in *Interp) symReadConstTable(cells []*Term, idx *Term) (*Term, bool) {
+	count := map[uint64]int{}
+	for _, c := range cells {
+		if !c.IsConst() || c.sort != cells[0].sort {
+			return nil, false
+		}
+		count[c.cval]++
+	}
+	var def uint64
+	best := -1
+	for v, n := range count {
+		if n > best || (n == best && v < def) {
+			def, best = v, n
+		}
+	}
+	if len(cells)-best > 16 {
+		return nil, false
+	}
+	var res *Term
+	for _, c := range cells {
+		if c.cval == def {
+			res = c
+			break
+		}
+	}
+	for j := len(cells) - 1; j >= 0; j-- {
+		if c := cells[j]; c.cval != def {
+			res = in.tt.Ite(in.tt.Eq(idx, in.tt.BVConst(uint64(j), idx.sort.W)), c, res)
+		}
+	}
+	return res, true
 }
